@@ -148,6 +148,15 @@ theorem gen_sound_default (Δ : Decls) (o : Opts) (ho : o.tng = none ∧ o.exp =
   exact gen_sound_partial Δ o fuel t s σ Γ v hg (tnInj_none Δ o ho.1) hl
     (gen_no_dangling_default Δ o ho fuel t s σ hg ha) hw hv hnn hq hd hn
 
+/-- Under the default option set `WrongComponent` (F-C18-5) is the ghost flag alone — a cycle cut at an anonymous
+struct — provided no component is named "" (the name all anonymous structs are stored under; decidable on the outcome):
+every stored entry is keyed by the Go name of its own type. The other two forms of F-C18-5 need ExportComponentSchemas. -/
+theorem gen_wrong_component_default (Δ : Decls) (o : Opts) (ho : o.tng = none ∧ o.exp = false ∧ o.cust = false)
+    (fuel : Nat) (t : GoType) (s : Sch) (σ : St) (hg : genRoot Δ o fuel t = (.ok s, σ)) (he : "" ∉ σ.comps) :
+    WrongComponent o σ ↔ σ.anon = true := by
+  unfold WrongComponent
+  rw [default_wrong_iff_anon Δ o ⟨ho.1, ho.2.1, ho.2.2⟩ fuel t σ (.ok s) hg he]
+
 /-- The injectivity hypothesis of `gen_sound_partial` holds outright for the usual type-name generators: none, and
 "prefix + Go name"; for a generator with an exception table it is the decidable check `tnInj_of_check`. -/
 theorem type_names_injective (Δ : Decls) (o : Opts) (h : o.tng = none ∨ ∃ p, o.tng = some ⟨p, []⟩) :
